@@ -912,6 +912,21 @@ class Component(composites.Composite, metaclass=ComponentType):
         nDens = {nuc: dens for nuc, dens in zip(nuclideNames, densities)}
         return densityTools.calculateMassDensity(nDens) * volume
 
+    def _getParentSymmetryFactor(self):
+        return self.parent.getSymmetryFactor() if self.parent else 1.0
+
+    def addMass(self, nucName, mass):
+        """Add mass (g) of a nuclide; as in getMass, masses are those of the symmetry-cut volume."""
+        composites.Composite.addMass(
+            self, nucName, mass * self._getParentSymmetryFactor()
+        )
+
+    def setMass(self, nucName, mass):
+        """Set the mass (g) of a nuclide; as in getMass, masses are those of the symmetry-cut volume."""
+        composites.Composite.setMass(
+            self, nucName, mass * self._getParentSymmetryFactor()
+        )
+
     def setDimension(self, key, val, retainLink=False, cold=True):
         """
         Set a single dimension on the component.
